@@ -25,8 +25,17 @@ def write_replay(prop, name, payload):
     return path
 
 
-def summarise(prop, tier, seed, contracts, grps, findings, res, wall):
+def load_baseline(prop):
+    """obligations that were discharged on the unchanged tree (committed; written only by --write-baseline)"""
+    p = os.path.join(VERIF, "baseline", f"{prop}.json")
+    if not os.path.exists(p):
+        return set()
+    return set(json.load(open(p)).get("discharged", []))
+
+
+def summarise(prop, tier, seed, contracts, grps, findings, res, wall, write_baseline=False):
     lines = []
+    baseline = load_baseline(prop)
     violations = []
     undecided = []
     discharged = []          # deductive obligations proved (K1/K2/K3/K5) and exhaustions (K4)
@@ -82,6 +91,14 @@ def summarise(prop, tier, seed, contracts, grps, findings, res, wall):
                                                     "inputs_repr": r0.get("inputs_repr"), "verifier": "z3 model", "model": r0.get("model"),
                                                     "confirmed_natively": bool(conf)})
                     violations.append((oid, path, bool(conf), r0.get("inputs_repr")))
+                elif o.get("sat") and oid in baseline:
+                    # discharged on the unchanged tree, refuted now: the violation is the failed obligation itself
+                    path = write_replay(prop, oid, {"property": prop, "kind": "obligation", "contract": c.id, "obligation": name,
+                                                    "target": repr(c.target), "verifier": "z3: sat (counter-model below does not replay as a call of the function: "
+                                                    "it is a state at a loop head or depends on an abstracted callee)",
+                                                    "model": o.get("model"), "why": o.get("why"), "confirmed_natively": False,
+                                                    "baseline": "this obligation was discharged on the unchanged tree (baseline/%s.json)" % prop})
+                    violations.append((oid, path, False, "no-failing-input-found"))
                 else:
                     undecided.append({"id": oid, "why": "; ".join(o.get("why", []))[:400]})
         elif not c.bounded_only and (c.quick or tier == "thorough"):
@@ -189,6 +206,12 @@ def summarise(prop, tier, seed, contracts, grps, findings, res, wall):
     ev = {"property_id": prop, "tier": tier, "seed": seed, "level": level, "coverage": cov,
           "assumptions": TRUSTED_BASE + [f"field type invariants: pyvc.run.FIELD_TYPES"], "wall_s": round(wall, 1),
           "violations": len(seen)}
+    if write_baseline and rc == 0:
+        os.makedirs(os.path.join(VERIF, "baseline"), exist_ok=True)
+        bp = os.path.join(VERIF, "baseline", f"{prop}.json")
+        old = set(json.load(open(bp)).get("discharged", [])) if os.path.exists(bp) else set()
+        json.dump({"property": prop, "note": "obligations discharged on the unchanged tree; written by check.py --write-baseline only",
+                   "discharged": sorted(old | set(discharged))}, open(bp, "w"), indent=0)
     os.makedirs(os.path.join(VERIF, "evidence"), exist_ok=True)
     with open(os.path.join(VERIF, "evidence", f"{prop}.json"), "w") as fjs:
         json.dump(ev, fjs, indent=1, default=str)
